@@ -534,13 +534,18 @@ func TestC01Transparency(t *testing.T) {
 			// transport then closes the backend connection under the response copy and the client gets a
 			// truncated/aborted response. Exactly that signature is re-run (and counted); a deterministic
 			// defect fails every time.
-			for try := 0; try < 3 && viol != "" && ec.Req.Framing != "none" && lab.Open("request-body-close-race") &&
+			// (Eight tries with a growing pause: on a machine loaded ten times over, the window of the race is wide
+			// enough for three immediate re-runs in a row to hit it - seen once in 600 000 exchanges.)
+			for try := 0; try < 8 && viol != "" && ec.Req.Framing != "none" && lab.Open("request-body-close-race") &&
 				(strings.Contains(viol, "could not be read to its end") || strings.Contains(viol, "could not read a response head")); try++ {
 				sub.Excluded("request-body-close-race")
 				raceSeen++
 				if c.cc != nil {
 					c.cc.Close()
 					c.cc = nil
+				}
+				if try >= 2 {
+					time.Sleep(time.Duration(10<<(try-2)) * time.Millisecond)
 				}
 				viol = runExchange(l, lc, &ec, c)
 			}
